@@ -249,4 +249,268 @@ theorem step_drop_live (s : Server) (i : Nat) (hi : i < s.objs.length) (hst : (g
     rfl
   · exact d2
 
+/-! ### fields of every object that the session clean-up and a release leave alone -/
+
+structure KeepW (a b : Client) : Prop where
+  will : b.will = a.will
+  id : b.id = a.id
+  conn : b.conn = a.conn
+  inline : b.inline = a.inline
+  isOpen : b.isOpen = a.isOpen
+  stopped : b.stopped = a.stopped
+
+macro "kw_rfl" : tactic => `(tactic| exact ⟨rfl, rfl, rfl, rfl, rfl, rfl⟩)
+
+theorem KeepW.refl (a : Client) : KeepW a a := by kw_rfl
+theorem KeepW.trans {a b c : Client} (h : KeepW a b) (g : KeepW b c) : KeepW a c :=
+  ⟨g.will.trans h.will, g.id.trans h.id, g.conn.trans h.conn, g.inline.trans h.inline, g.isOpen.trans h.isOpen,
+    g.stopped.trans h.stopped⟩
+
+/-- every object keeps the `KeepW` fields -/
+def KeepAll (s s' : Server) : Prop := ∀ k, KeepW (getObj s k) (getObj s' k)
+
+theorem KeepAll.refl (s : Server) : KeepAll s s := fun _ => KeepW.refl _
+theorem KeepAll.trans {s s1 s2 : Server} (h : KeepAll s s1) (g : KeepAll s1 s2) : KeepAll s s2 :=
+  fun k => (h k).trans (g k)
+theorem KeepAll.of_objs {s s' : Server} (h : s'.objs = s.objs) : KeepAll s s' :=
+  fun k => by rw [getObj_of_objs_eq h k]; exact KeepW.refl _
+
+theorem KeepAll.set (s : Server) (i : Nat) (c : Client) (h : KeepW (getObj s i) c) : KeepAll s (setObj s i c) := by
+  intro k
+  by_cases hk : k = i
+  · subst hk
+    rcases getObj_setObj_self_cases s k c with e | e
+    · rw [e]; exact h
+    · rw [e]; exact KeepW.refl _
+  · rw [getObj_setObj_ne s i k c hk]; exact KeepW.refl _
+
+theorem clearInflights_keep (s : Server) (i : Nat) : KeepAll s (clearInflights s i) := by
+  unfold clearInflights
+  extract_lets +onlyGivenNames c n
+  exact (KeepAll.set s i _ (by kw_rfl)).trans (KeepAll.of_objs rfl)
+
+theorem unsubscribeClient_keep (s : Server) (i : Nat) : KeepAll s (unsubscribeClient s i) :=
+  (KeepAll.set s i _ (by kw_rfl)).trans (KeepAll.of_objs (unsubscribeClient_objs s i))
+
+theorem detachB_keep (s : Server) (i : Nat) : KeepAll s (detachB s i) := by
+  unfold detachB
+  extract_lets +onlyGivenNames c expire s3 s4 s2
+  refine KeepAll.trans (s1 := s2) ?_ (KeepAll.of_objs rfl)
+  show KeepAll s (if (expire && !c.takenOver) = true then _ else s)
+  split
+  · exact ((clearInflights_keep s i).trans (unsubscribeClient_keep s3 i)).trans (KeepAll.of_objs rfl)
+  · exact KeepAll.refl s
+
+theorem nextImmediate_keep (s : Server) (i : Nat) : KeepAll s (nextImmediate s i).1 := by
+  unfold nextImmediate
+  extract_lets c
+  split
+  · split
+    · rename_i m hm
+      extract_lets o
+      split
+      rename_i c' ok hfl
+      have hc' : KeepW c c' := by
+        have : c' = (flDelete c m.id).1 := by rw [hfl]
+        rw [this]; unfold flDelete; kw_rfl
+      have hd : KeepW c (decSend c') := by
+        refine hc'.trans ?_
+        unfold decSend; split <;> kw_rfl
+      have h1 : KeepAll s (setObj { s with nextSeed := s.nextSeed / 64 } i (decSend c')) :=
+        (KeepAll.of_objs (s' := { s with nextSeed := s.nextSeed / 64 }) rfl).trans (KeepAll.set _ i _ hd)
+      show KeepAll s (if ok = true then _ else _)
+      split
+      · exact h1.trans (KeepAll.of_objs rfl)
+      · exact h1
+    · exact KeepAll.refl s
+  · exact KeepAll.refl s
+
+theorem nextImmediate_willDelayed (s : Server) (i : Nat) : (nextImmediate s i).1.willDelayed = s.willDelayed := by
+  unfold nextImmediate
+  extract_lets c
+  split
+  · split
+    · rename_i m hm
+      extract_lets o
+      split
+      rename_i c' ok hfl
+      show Server.willDelayed (if ok = true then _ else _) = _
+      split <;> rfl
+    · rfl
+  · rfl
+
+/-- a closed client is written nothing by a release -/
+theorem nextImmediate_closed (s : Server) (i : Nat) (h : (getObj s i).isOpen = false) : (nextImmediate s i).2 = [] := by
+  rcases nextImmediate_out s i with e | ⟨_, m, _, _, e⟩
+  · exact e
+  · rw [e]; unfold writeMsg; simp [h]
+
+/-! ### DISCONNECT -/
+
+/-- `processDisconnect`'s protocol error: the session expiry interval is raised from zero -/
+def seiViolation (c : Client) (sei : Option Nat) : Bool :=
+  match sei with
+  | some v => decide (v > 0) && c.sei == 0
+  | none => false
+
+/-- the client object after a DISCONNECT that carries a session expiry interval -/
+def discObj (c : Client) (sei : Option Nat) : Client :=
+  match sei with
+  | some v => { c with sei := v, fsei := true }
+  | none => c
+
+theorem discObj_keep (c : Client) (sei : Option Nat) : KeepW c (discObj c sei) := by
+  cases sei <;> (unfold discObj; kw_rfl)
+
+theorem discObj_peerGone (c : Client) (sei : Option Nat) : (discObj c sei).peerGone = c.peerGone := by
+  cases sei <;> rfl
+
+theorem discObj_ver (c : Client) (sei : Option Nat) : (discObj c sei).ver = c.ver := by
+  cases sei <;> rfl
+
+/-- the state after `processDisconnect` updated the session expiry interval -/
+def discState (s : Server) (i : Nat) (sei : Option Nat) : Server := setObj s i (discObj (getObj s i) sei)
+
+theorem getObj_discState (s : Server) (i : Nat) (sei : Option Nat) (hi : i < s.objs.length) :
+    getObj (discState s i sei) i = discObj (getObj s i) sei := getObj_setObj_eq s i _ hi
+
+theorem processDisconnect_violation (s : Server) (i rc : Nat) (sei : Option Nat)
+    (h : seiViolation (getObj s i) sei = true) : processDisconnect s i rc sei = (s, [], some 0x82) := by
+  unfold processDisconnect
+  cases sei with
+  | none => cases h
+  | some v =>
+    have h' : (decide (v > 0) && (getObj s i).sei == 0) = true := h
+    simp only [h', if_true]
+
+theorem processDisconnect_with_will (s : Server) (i : Nat) (sei : Option Nat)
+    (h : seiViolation (getObj s i) sei = false) :
+    processDisconnect s i 0x04 sei = (discState s i sei, [], some 0x04) := by
+  unfold processDisconnect
+  cases sei with
+  | none => rfl
+  | some v =>
+    have h' : (decide (v > 0) && (getObj s i).sei == 0) = false := h
+    simp only [h', Bool.false_eq_true, if_false]
+    rfl
+
+theorem processDisconnect_normal (s : Server) (i rc : Nat) (sei : Option Nat) (hrc : rc ≠ 0x04)
+    (h : seiViolation (getObj s i) sei = false) :
+    processDisconnect s i rc sei =
+      ((stopClient { discState s i sei with willDelayed := assocDel s.willDelayed (getObj s i).id } i).1,
+       (stopClient { discState s i sei with willDelayed := assocDel s.willDelayed (getObj s i).id } i).2, none) := by
+  have hrc' : (rc == 4) = false := by simpa using hrc
+  unfold processDisconnect
+  cases sei with
+  | none => simp only [hrc', Bool.false_eq_true, if_false]; rfl
+  | some v =>
+    have h' : (decide (v > 0) && (getObj s i).sei == 0) = false := h
+    simp only [h', hrc', Bool.false_eq_true, if_false]
+    rfl
+
+/-- the state after a normal DISCONNECT was processed: the delayed will of the id removed, the client stopped -/
+def discStopped (s : Server) (i : Nat) (sei : Option Nat) : Server :=
+  setObj { discState s i sei with willDelayed := assocDel s.willDelayed (getObj s i).id } i
+    { discObj (getObj s i) sei with isOpen := false, stopped := true }
+
+theorem getObj_discStopped (s : Server) (i : Nat) (sei : Option Nat) (hi : i < s.objs.length) :
+    getObj (discStopped s i sei) i = { discObj (getObj s i) sei with isOpen := false, stopped := true } :=
+  getObj_setObj_eq _ i _ (by show i < (discState s i sei).objs.length; rw [discState, setObj_length]; exact hi)
+
+/-- a normal DISCONNECT (any reason code but 0x04, no protocol error) of a live network client: `processPacket` -/
+theorem receivePacket_disconnect_normal (s : Server) (i rc : Nat) (sei : Option Nat) (hi : i < s.objs.length)
+    (hrc : rc ≠ 0x04) (h : seiViolation (getObj s i) sei = false)
+    (hst : (getObj s i).stopped = false) (hin : (getObj s i).inline = false) :
+    receivePacket s i (.disconnect rc sei) =
+      ((nextImmediate (discStopped s i sei) i).1, [.closed (getObj s i).conn], none) := by
+  have g : getObj { discState s i sei with willDelayed := assocDel s.willDelayed (getObj s i).id } i =
+      discObj (getObj s i) sei := getObj_discState s i sei hi
+  have k := discObj_keep (getObj s i) sei
+  have e := stopClient_live { discState s i sei with willDelayed := assocDel s.willDelayed (getObj s i).id } i
+    (by rw [g, k.stopped]; exact hst) (by rw [g, k.inline]; exact hin)
+  rw [g, k.conn] at e
+  have hcl : (getObj (discStopped s i sei) i).isOpen = false := by rw [getObj_discStopped s i sei hi]
+  unfold receivePacket
+  simp only [processDisconnect_normal s i rc sei hrc h, e]
+  show ((nextImmediate (discStopped s i sei) i).1, [Out.closed (getObj s i).conn] ++ (nextImmediate (discStopped s i sei) i).2, none) = _
+  rw [nextImmediate_closed _ i hcl]
+  rfl
+
+/-- DISCONNECT with reason 0x04 (no protocol error): the read loop ends with that error, nothing is written yet -/
+theorem receivePacket_disconnect_with_will (s : Server) (i : Nat) (sei : Option Nat)
+    (h : seiViolation (getObj s i) sei = false) :
+    receivePacket s i (.disconnect 0x04 sei) = (discState s i sei, [], some 0x04) := by
+  unfold receivePacket
+  simp only [processDisconnect_with_will s i sei h]
+  simp
+
+theorem detach_false_eq (s : Server) (i : Nat) :
+    detach s i false = (detachB (modObj s i (fun c => { c with will := {} })) i, []) := rfl
+
+/-- **the op**: a normal DISCONNECT of a live network client closes the connection, writes nothing else, removes the
+    delayed will registered under the id, clears the will of the object and stops it -/
+theorem step_disconnect_normal (s : Server) (i rc : Nat) (sei : Option Nat) (hi : i < s.objs.length)
+    (hrc : rc ≠ 0x04) (h : seiViolation (getObj s i) sei = false) (hopen : (getObj s i).isOpen = true)
+    (hst : (getObj s i).stopped = false) (hin : (getObj s i).inline = false)
+    (hc : assocGet s.connOf (getObj s i).conn = some i) :
+    (step s (.recv (getObj s i).conn (.disconnect rc sei))).2 = [.closed (getObj s i).conn] ∧
+    (step s (.recv (getObj s i).conn (.disconnect rc sei))).1.willDelayed = assocDel s.willDelayed (getObj s i).id ∧
+    (getObj (step s (.recv (getObj s i).conn (.disconnect rc sei))).1 i).will.flag = false ∧
+    (getObj (step s (.recv (getObj s i).conn (.disconnect rc sei))).1 i).stopped = true := by
+  have g := getObj_discStopped s i sei hi
+  have k4 := nextImmediate_keep (discStopped s i sei) i i
+  have hcl4 : (getObj (nextImmediate (discStopped s i sei) i).1 i).isOpen = false := by rw [k4.isOpen, g]
+  have hst4 : (getObj (nextImmediate (discStopped s i sei) i).1 i).stopped = true := by rw [k4.stopped, g]
+  have hlen4 : i < (nextImmediate (discStopped s i sei) i).1.objs.length := by
+    rw [(nextImmediate_good (discStopped s i sei) i).len]
+    show i < (setObj _ i _).objs.length
+    rw [setObj_length]
+    show i < (discState s i sei).objs.length
+    rw [discState, setObj_length]; exact hi
+  have e : step s (.recv (getObj s i).conn (.disconnect rc sei)) =
+      (detachB (modObj (nextImmediate (discStopped s i sei) i).1 i (fun c => { c with will := {} })) i,
+        [.closed (getObj s i).conn]) := by
+    rw [step]
+    unfold recvOn
+    simp only [hc, hopen, receivePacket_disconnect_normal s i rc sei hi hrc h hst hin, hcl4, detach_false_eq,
+      Bool.not_true, Bool.not_false, Bool.false_eq_true, if_false, if_true, List.append_nil]
+  rw [e]
+  have kB := detachB_keep (modObj (nextImmediate (discStopped s i sei) i).1 i (fun c => { c with will := {} })) i i
+  have gm := getObj_modObj_lt (nextImmediate (discStopped s i sei) i).1 i (fun c => { c with will := {} }) hlen4
+  refine ⟨rfl, ?_, ?_, ?_⟩
+  · show (detachB _ i).willDelayed = _
+    rw [detachB_willDelayed]
+    show (nextImmediate (discStopped s i sei) i).1.willDelayed = _
+    rw [nextImmediate_willDelayed]
+    rfl
+  · show (getObj (detachB _ i) i).will.flag = false
+    rw [kB.will, gm]
+  · show (getObj (detachB _ i) i).stopped = true
+    rw [kB.stopped, gm]
+    exact hst4
+
+/-- **the op**: DISCONNECT with reason 0x04: the handler leaves its read loop with an error, as if the connection had
+    been lost (`sendLWT`, then the connection is closed) -/
+theorem step_disconnect_with_will (s : Server) (i : Nat) (sei : Option Nat) (hi : i < s.objs.length)
+    (h : seiViolation (getObj s i) sei = false) (hopen : (getObj s i).isOpen = true)
+    (hst : (getObj s i).stopped = false) (hin : (getObj s i).inline = false)
+    (hc : assocGet s.connOf (getObj s i).conn = some i) :
+    (step s (.recv (getObj s i).conn (.disconnect 0x04 sei))).2 =
+      (sendLWT (discState s i sei) i).2 ++ [.closed (getObj s i).conn] ∧
+    (step s (.recv (getObj s i).conn (.disconnect 0x04 sei))).1.willDelayed =
+      (sendLWT (discState s i sei) i).1.willDelayed := by
+  have g := getObj_discState s i sei hi
+  have k := discObj_keep (getObj s i) sei
+  obtain ⟨d1, d2⟩ := detach_true_live (discState s i sei) i (by rw [g, k.stopped]; exact hst)
+    (by rw [g, k.inline]; exact hin)
+  rw [g, k.conn] at d1
+  have e : step s (.recv (getObj s i).conn (.disconnect 0x04 sei)) =
+      ((detach (discState s i sei) i true).1, (detach (discState s i sei) i true).2) := by
+    rw [step]
+    unfold recvOn
+    simp only [hc, hopen, receivePacket_disconnect_with_will s i sei h, Bool.not_true, Bool.false_eq_true, if_false,
+      List.nil_append]
+  rw [e]
+  exact ⟨d1, d2⟩
+
 end Mochi.Broker
